@@ -86,6 +86,11 @@ def build_scn(c):
            'types': t, 'assign': assign, 'power': {'asm': power}}
     if c.get('dz'):
         scn['setup']['axial_mesh_size'] = c['dz']
+    if c.get('ftf') == 'outer-first':
+        # the order of the two flat-to-flat values of a duct is free in the input
+        for d in t.values():
+            f = list(d['duct_ftf'])
+            d['duct_ftf'] = [f[i + 1 - 2 * (i % 2)] for i in range(len(f))]
     return scn
 
 
@@ -303,7 +308,11 @@ def cases(tier):
                 for gf in (0.002, 0.05):
                     out.append({'layout': lay, 'gapfrac': gf, 'gap_model': gm, 'max_steps': 60})
         out.append({'layout': ['A'] * 7 + ['B', None] * 6, 'gapfrac': 0.05, 'gap_model': 'flow', 'max_steps': 20})
+        for lay in full:
+            out.append({'layout': lay, 'gapfrac': 0.05, 'gap_model': 'flow', 'max_steps': 60, 'ftf': 'outer-first'})
     else:
+        for lay in layouts7(['A', 'B', 'U', 'D', 'S'], 2, 2):
+            out.append({'layout': lay, 'gapfrac': 0.05, 'gap_model': 'flow', 'max_steps': 40, 'ftf': 'outer-first'})
         for lay in layouts7(['A', 'B', 'U']):
             out.append({'layout': lay, 'gapfrac': 0.05, 'gap_model': 'flow', 'max_steps': 25})
         for lay in layouts7(['A', 'B', 'C', 'U', 'D', 'Ds', 'S', 'S5'], 1, 2):
